@@ -20,7 +20,7 @@ func init() {
 			ruleMO(r, 10, "cmd/docker-logql", "groupEntries")
 			ruleGroupEntries(r) // every returned record reaches the renderer: the engine keeps every entry of a stream
 			ruleDaemonLog(r)    // a long line is a record like any other: frames are read whole, whatever their size
-			ruleMergeIter(r)              // the merged stream holds the records the containers produced and nothing else
+			ruleMergeIter(r)    // the merged stream holds the records the containers produced and nothing else
 			ruleResultKindSet(r)
 		},
 	})
